@@ -308,6 +308,29 @@ def lockstep_scenarios(rng, thorough=False):
     return out
 
 
+def scalar_backpressure_scenarios(rng, thorough=False):
+    """Sustained back-pressure from the scalar memory: 40 wavefronts (4 groups x 10) each issue six s_load_dword, then
+    s_waitcnt lgkmcnt(0), s_endpgm, while the scalar memory side accepts one request every k cycles (`srate`) or none for a
+    long window (`shold`): ToScalarMem's outgoing buffer and then the scalar unit's 16-entry read buffer fill up, and
+    s_loads stall in the execute stage.  A load that is retired without its request shows as a wait count / s_endpgm that
+    completes while the specification still has the load in flight (WaitcntSound, EndAfterMemory, CountersExact)."""
+    raw = [{'mode': 'raw', 'nwf': 10, 'body': ['sld'] * 6 + ['w:0:0', 'end']}]
+
+    def sc(name, kernels, extra, n=4):
+        mem = {'vdef': [5, 20], 'sdef': [5, 20], 'i': [1, 3], 'seed': rng.randrange(1 << 30)}
+        mem.update(extra)
+        return {'name': name, 'kernels': kernels, 'wgs': [{'k': 0, 'at': 0}] * n, 'vals': True, 'mem': mem}
+    out = [sc('sbp_rate%d' % k, raw, {'srate': k}) for k in ((8,) if not thorough else (3, 8, 20))]
+    out.append(sc('sbp_hold', raw, {'shold': [[0, rng.choice([1200, 1500, 2500])]]}))
+    if thorough:
+        out.append(sc('sbp_windows', raw, {'shold': [[0, 400], [420, 900], [930, 1500]], 'srate': 2}))
+        # with the prologue and a store of what was loaded: the values are judged too
+        tab = [{'mode': 'table', 'progs': [['sld'] * 6 + ['w:0:0', 'gst', 'w:0:0', 'end']] * 10}]
+        out.append(sc('sbp_table_rate6', tab, {'srate': 6}))
+        out.append(sc('sbp_no_wait', [{'mode': 'raw', 'nwf': 10, 'body': ['sld'] * 8 + ['end']}], {'srate': 8}))
+    return out
+
+
 def emu_report_scenarios(rng, thorough=False):
     """Emulation CU only, dispatcher side scripted (`emuplan`): work-groups mapped one after the other (so their completions
     are not batched) while the dispatcher does not take completion messages (back-pressure on ToDispatcher: the one-entry
@@ -978,7 +1001,10 @@ def run(ctx, selftest=False):
             r = ctx.tlc_expect_ok(['cusched'], 'CUReport.tla', cfg, timeout=900, workers=2)
             ctx.log('%s: %d distinct states' % (cfg, r.distinct))
     emur = emu_report_scenarios(rng, thorough)
-    _run_and_validate(ctx, drv, lock + emur, 'lock', files, tot)
+    # 3b''. sustained back-pressure from the scalar memory (stalled s_loads)
+    sbp = scalar_backpressure_scenarios(rng, thorough)
+    ctx.cov['scalar_backpressure_scenarios'] = len(sbp)
+    _run_and_validate(ctx, drv, lock + emur + sbp, 'lock', files, tot)
     ctx.cov['lockstep_scenarios'] = len(lock)
     ctx.cov['emulation_report_scenarios'] = len(emur)
 
